@@ -171,7 +171,7 @@ class _Checker:
             if not vlib.close(b["vol"] * U ** 3, rec["vol"], 1e-12, 1e-12):
                 self._viol("BoxVolume:%s" % typ, "BoxVolume()=%r nm^3 = %r lattice^3, expected %d for box %s" %
                               (b["vol"], b["vol"] * U ** 3, rec["vol"], cols), rep)
-        if typ != "open":
+        if typ != "open" and loose_typ is None:
             ln = out[1][0] if out[1] else "exc no output"
             if not ln.startswith("short "):
                 self._viol("ShortestBoxSize:%s:exception" % typ, ln, rep)
@@ -554,6 +554,9 @@ def run(ctx):
         raise vlib.InfraError("no setBox histories exported")
     chk.histories(hists)
     ctx.sample({"setBox_history": hists[len(hists) // 2]})
+    if not (chk.stats.get("hist_cleanup") and chk.stats.get("hist_loose") and chk.stats.get("copies")
+            and chk.stats.get("hist_auto") and chk.stats.get("hist_open")):
+        raise vlib.InfraError("vacuous setBox history set: %s" % chk.stats)
     if not quick:
         res = vlib.tlc("pbc", "MCPbcHist", cfg="MCPbcHistSim.cfg", timeout=1200, simulate=60, depth=7, workers=4,
                        seed=ctx.seed)
